@@ -19,7 +19,9 @@ type evt struct {
 	bytes []byte // peer messages
 }
 
-func (e evt) peer() bool { return e.tok[0] >= 'A' && e.tok[0] <= 'Z' && e.tok[0] != 'W' }
+func (e evt) peer() bool {
+	return e.tok[0] >= 'A' && e.tok[0] <= 'Z' && e.tok[0] != 'W' && e.tok[0] != 'X'
+}
 
 type pq struct {
 	returned, finished, rrc bool
@@ -656,6 +658,20 @@ func (k *know) bad() evt {
 	return evt{}
 }
 
+// ---------------------------------------------------------------- fault scenarios (stream x)
+
+// faults are histories with transport write failures: X<kind>^<application event> makes the next
+// outgoing message of that kind fail (the connection stays up).  The machine has no transport
+// faults (they are C09's); these histories are judged by the wire-level invariants only: no crash,
+// no wedge, no leak, and no question id reused while the peer still holds it as an unfinished
+// answer (no Finish on the wire).
+var faults = [][]string{
+	// a canceled call whose Finish could not be written: the id stays reserved after the Return
+	{"b", "R0,0,r10/c0/h5", "c0,-,1", "Xf^x0", "R0,0,r10/s:/-", "c0,-,2", "R1,0,r10/s:/-", "l0"},
+	// the same with the Return before the cancel (nothing to reserve: the Finish of the Return is written)
+	{"b", "R0,0,r10/c0/h5", "c0,-,1", "R0,0,r10/s:/-", "Xf^x0", "c0,-,2", "R0,0,r10/s:/-", "l0"},
+}
+
 // ---------------------------------------------------------------- scripted scenarios
 
 // scenarios are event-token lists (peer messages are built from their tokens).  They put the
@@ -702,6 +718,15 @@ var scenarios = [][]string{
 	// a further pipelined call arrives while the queue of an answer is being drained (the first
 	// queued delivery not acknowledged yet): it must not overtake the queued ones
 	{"B0", "C1,i0,10/s:/-,1,1,1", "C2,a1:f0,10/s:/-,1,1,2", "C3,a1:f0,10/s:/-,1,1,3", "Wa1^r0,s:l1^C4,a1:f0,10/s:/-,1,1,4", "r1,0", "r2,0", "r3,0"},
+	// the last local reference of an import goes; while its Release is being written a Return names the
+	// same import id again: the new client is a new import (own entry, own Release), not the dying one
+	{"b", "b", "R0,0,r10/c0/h5", "Wl^l0^R1,0,r10/c0/h5", "c1,-,7", "R0,0,r10/s:/-", "l1", "b"},
+	// the Finish of an answer arrives while its Return is being written: the answer is destroyed after the
+	// send (the flag is read again), the peer may reuse the id
+	{"B0", "C1,i0,10/s:/-,1,1,1", "Wr^r0,0^F1,0", "C1,i0,10/s:/-,1,1,2", "r1,0", "F1,0", "B2"},
+	// a (duplicated) Return names the recycled id of a question whose Call is still being built and carries a
+	// local capability: the call fails for the caller, nothing else happens
+	{"b", "R0,0,r10/c0/h5", "Wp^c0,l1,5^R0,0,r10/s:/-", "c0,-,6", "R0,0,r10/s:/-", "l0"},
 	// finish before return, release of result caps, repeated bootstrap (wire refs of one export)
 	{"B0", "B1", "B2", "F0,1", "F1,0", "L0,1", "C3,a2:-,10/s:/-,1,1,1", "F3,1", "r0,s:l0.l0.l1", "F2,1"},
 	// cancel, then the Return of the canceled question; id reuse
@@ -746,7 +771,7 @@ func (s *source) next() (evt, bool) {
 
 // parseEvt reads "<token>[#hex]".
 func parseEvt(s string) evt {
-	if s[0] == 'W' {
+	if s[0] == 'W' || s[0] == 'X' {
 		return evt{tok: s}
 	}
 	if i := strings.IndexByte(s, '#'); i >= 0 {
